@@ -78,6 +78,10 @@ func (r *run) doBlock(sp hdrSpec, entry, tag string) (advanced bool) {
 	c, e := r.c, r.e
 	r.tick()
 	h, m := e.build(&sp)
+	if h == nil {
+		c.Count("gen:header-wire-form-undecodable")
+		return false
+	}
 	blk := &types.Block{Header: h}
 	curB, curH := e.store.GetCurrentBlockHeight(), e.store.GetCurrentHeaderHeight()
 	atBefore, _ := e.store.GetHeaderByHeight(sp.Height)
@@ -102,7 +106,7 @@ func (r *run) doBlock(sp hdrSpec, entry, tag string) (advanced bool) {
 	})
 	c.Eval()
 	if panicked {
-		c.Note("block offer panicked: " + pmsg)
+		c.Fail("panic:"+entry, "a panic escaped "+entry, r.full("block-"+entry, sp), pmsg, "error or nil")
 	}
 	newB, newH := e.store.GetCurrentBlockHeight(), e.store.GetCurrentHeaderHeight()
 	advanced = newB == curB+1 && newB == sp.Height
